@@ -90,6 +90,9 @@ func (g *G) StrExpr(d int, env *Env) Expr {
 	switch g.R.Intn(12) {
 	case 0:
 		n := 2 + g.R.Intn(3)
+		if g.Chance(0.15) {
+			n = 5 + g.R.Intn(6) // long argument lists: every argument contributes, in order
+		}
 		var args []Expr
 		for i := 0; i < n; i++ {
 			args = append(args, g.StrArg(d, env))
